@@ -437,6 +437,13 @@ def candsWith (inp : Input) (enum : Link → List (List Nat)) : List (Link × Li
 
 def cands (inp : Input) : List (Link × List Nat) := candsWith inp (resMatches inp)
 
+/-- candidates as the PROPERTY sees them: every link whose `molmeta` fits, whatever residue names its
+atoms mention.  (The code's `_resnames_match` pre-filter additionally skips a link none of whose atoms
+carries a `resname`; for a link with at least one `resname`-constrained atom the pre-filter cannot change
+the result: that atom needs a molecule atom of that name.) -/
+def specCands (inp : Input) (enum : Link → List (List Nat)) : List (Link × List Nat) :=
+  inp.links.flatMap (fun l => if attrsMatch inp.molMeta l.molMeta [] then (enum l).map (fun m => (l, m)) else [])
+
 /-- the accepted events of a candidate list, from state `s` on -/
 def events (inp : Input) : St → List (Link × List Nat) → List Event
   | _, [] => []
@@ -455,7 +462,7 @@ def specLookup (inp : Input) (evs : List Event) (k : Key) : Option IVal :=
 /-- the specification's output, built without the fold: every key that a block or an accepted event
 contributes, with the value of its last contribution, unless scheduled-for-removal atoms occur in it -/
 def specOutput (inp : Input) (enum : Link → List (List Nat)) : Output :=
-  let evs := events inp (initSt inp) (candsWith inp enum)
+  let evs := events inp (initSt inp) (specCands inp enum)
   let removed := evs.flatMap Event.removals
   let allKeys := dedup ((inp.ixns ++ evs.flatMap Event.contribs).map (·.1))
   let st := evs.foldl St.apply (initSt inp)
